@@ -141,6 +141,7 @@ func installHooks() {
 func NewWorld(m *Sim) *World {
 	w := &World{Sim: m, Servers: map[string]*ServerNode{}, byLoc: map[string]*ServerNode{}, Clients: map[string]*ClientNode{}}
 	cur = w
+	m.LifeLimited = true
 	m.QuiesceCheck = w.lockProbe
 	return w
 }
